@@ -12,8 +12,9 @@ Oracles on the real binary: the commit succeeds like plain git's; every note par
 note and on `git-ai blame`: a line is credited to session S only if S reported that very content.
 Correspondence: Model/Snapshot.lean (`snapshot_commit` driver op) is given the working log as it is on disk after the
 damage, the blobs as a reader sees them, HEAD's and the file's content, and the two fallbacks EXTRACTED from the
-source; its note must equal the real note (cases where a damaged blob is still readable but is not a line-boundary
-truncation of the original are outside `Damaged` and are checked by the oracles only)."""
+source; its note must equal the real note. Checked by the oracles only: cases where a damaged blob is still readable
+but is not a line-boundary truncation of the original (outside `Damaged`), and a truncated snapshot of INITIAL (the code
+drops a line RANGE that reaches beyond the content as a whole, the model keeps the lines inside: model ⊇ code there)."""
 import concurrent.futures, hashlib, json, os, random, shutil, traceback
 
 from vlib import common as C, e2e
@@ -242,11 +243,19 @@ def scenario(job):
                     in_damaged = False
                 store.append([ref(sha), ids.many(rust_lines(txt))])
             legacy = bool(pend1) and not pend1[0]
+            # the checkpoint stores the current content under its own name first — unless a directory sits there
+            cur_sha = hashlib.sha256(text_of(cur).encode()).hexdigest()
+            cur_ref = 0 if os.path.isdir(os.path.join(bdir, cur_sha)) else ref(cur_sha)
+            # INITIAL's line RANGES are converted on the recorded content: a range that reaches beyond a truncated
+            # snapshot is dropped as a whole (line_attributions_to_attributions) — finer than the model's per-line view
+            pend_truncated = bool(pend1 and pend1[0] and not entries1 and originals.get(pend1[0]) is not None
+                                  and os.path.isfile(os.path.join(bdir, pend1[0]))
+                                  and open(os.path.join(bdir, pend1[0]), "rb").read() != originals[pend1[0]])
             req = {"op": "snapshot_commit",
                    "entries": [{"ref": ref(s), "attr": attr_of(la, sess)} for s, la in entries1],
                    "pending": ({"ref": ref(pend1[0] or "none"), "attr": attr_of(pend1[1], sess)} if pend1 else None),
                    "store": store, "head": ids.many(head_lines), "cur": ids.many(cur),
-                   "cur_ref": ref(hashlib.sha256(text_of(cur).encode()).hexdigest())}
+                   "cur_ref": cur_ref}
             # ---- commit
             r.git("add", "-A")
             rc, _, err = r.git("commit", "-q", "-m", "after damage")
@@ -291,10 +300,11 @@ def scenario(job):
                     fails.append((f"attribution-invented:lost-snapshot:{kind}", dict(w, source=src, line=ln, text=text, credited_to=h,
                                                                                  sessions={k: sorted(v) for k, v in reported.items()})))
             tags.append("snap:credited-lines:" + ("some" if real else "none"))
-            if in_damaged and not legacy:
+            if in_damaged and not legacy and not pend_truncated:
                 out["req"], out["real"] = req, sorted(real)
             else:
-                tags.append("snap:model-skipped:" + ("legacy-initial" if legacy else "blob-readable-but-altered"))
+                tags.append("snap:model-skipped:" + ("legacy-initial" if legacy else "initial-snapshot-truncated" if pend_truncated
+                                                     else "blob-readable-but-altered"))
     except Exception as e:
         fails.append(("runner-exception", {"job": list(job), "error": repr(e), "trace": traceback.format_exc()[-1500:]}))
     return out
